@@ -32,7 +32,9 @@ func CreateUnknownBox(name string, size uint64, payload []byte) *UnknownBox {
 
 // DecodeUnknownSR - decode an unknown box
 func DecodeUnknownSR(hdr BoxHeader, startPos uint64, sr bits.SliceReader) (Box, error) {
-	return &UnknownBox{hdr.Name, hdr.Size, sr.ReadBytes(hdr.payloadLen())}, sr.AccError()
+	// The box is written back with a normal 8-byte header, also if it was read with a large-size header
+	size := uint64(hdr.payloadLen()) + boxHeaderSize
+	return &UnknownBox{hdr.Name, size, sr.ReadBytes(hdr.payloadLen())}, sr.AccError()
 }
 
 // Type - return box type
